@@ -10,6 +10,8 @@ import XotModel.Lemmas.FspecDetach
 import XotModel.Lemmas.FspecAppend
 import XotModel.Lemmas.FspecContent
 import XotModel.Lemmas.FspecString
+import XotModel.Lemmas.FspecUnwrap
+import XotModel.Lemmas.FspecWrap
 
 namespace XotModel.Props
 open XotModel XotModel.Spec
@@ -249,6 +251,34 @@ theorem C05_survivor_insertBefore {f : Forest} {r c : Nat} {tr tc : Str} (inv : 
     (f.insertBefore r c).2 = .ok ∧ (f.insertBefore r c).1.isLive c = false ∧
       (f.insertBefore r c).1.value? r = some (.text (tc ++ tr)) :=
   insertBefore_survivor inv norm hc hsc hsr hsame hprev htr htc
+
+/-! ### element_unwrap, element_wrap -/
+
+/-- `element_unwrap` destroys exactly the wrapper: its normal children take its place, in order
+    (its attribute and namespace nodes go with it), and the text nodes that become adjacent at
+    the two seams are merged — including the three-way case `x<w>y</w>z`. Handle for handle, for
+    either survivor rule. -/
+theorem C05_unwrap {f : Forest} {n : Nat} (inv : f.Inv) (norm : f.Normal)
+    (hok : (f.elementUnwrap n).2 = .ok) :
+    (f.elementUnwrap n).1 = specUnwrap Keep.earlier n f :=
+  unwrap_spec (Keep.earlier_spec n) inv norm hok
+
+/-- `element_wrap` adds exactly one element — the fresh handle `f.next`, which is also the handle it
+    returns — at the place of the node, with the node as its only child. -/
+theorem C05_wrap {f : Forest} {n name : Nat} (inv : f.Inv) (norm : f.Normal)
+    (hok : (f.elementWrap n name).2.1 = .ok) :
+    (f.elementWrap n name).1 = specWrap n name f ∧ (f.elementWrap n name).2.2 = f.next :=
+  wrap_spec inv norm hok
+
+/-- Non-vacuity: the three-way merge of `element_unwrap` (`x<w>y</w>z` becomes `xyz`) and a wrap. -/
+example :
+    let f : Forest := { roots := [.node 0 (.element 2) [.node 1 (.text ['x']) [],
+                          .node 2 (.element 3) [.node 3 (.attribute 2 ['v']) [], .node 4 (.text ['y']) []],
+                          .node 5 (.text ['z']) []]], next := 6 }
+    f.inv = true ∧ (f.elementUnwrap 2).2 = .ok ∧
+      (f.elementUnwrap 2).1.content = [.node (.element 2) [.node (.text ['x', 'y', 'z']) []]] ∧
+      (f.elementWrap 4 6).2.1 = .ok ∧ (f.elementWrap 4 6).2.2 = 6 := by
+  decide
 
 /-! ### String values
 
